@@ -273,7 +273,7 @@ Proof.
     apply wf_reconcile. apply wf_remove. exact W.
 Qed.
 
-(* the deletion of an absent key changes nothing (but reports the empty list: F30) *)
+(* the deletion of an absent key changes nothing (but reports the empty list: F37) *)
 Theorem usersig_delete_absent st k :
   stored st KUserSig k = false ->
   fst (step fx st (EvDelUserSig k)) = st /\ o_usersigs (snd (step fx st (EvDelUserSig k))) = Some [].
